@@ -29,7 +29,8 @@ TRUSTED = [
     "Section hypotheses H_tok (hasher outputs non-empty, free of , ; : | { }) and H_inj (hasher injective) stand for SHA-256 hexdigest being "
     "collision-free; they are hypotheses (explicit premises) of the theorems, not axioms; proved for the hex hasher of the correspondence check on strings of code points < 0x110000 (HexHash.v: C07_hexhash_satisfies_hypotheses, and the hypothesis-free corollaries C07_*_hexhash_partial); for SHA-256 they remain assumptions",
     "bytes are modelled for ASCII content only; floats are half-integers with positional repr",
-    "cyclic / shared mutable containers, custom objects, numpy, Decimal, datetime, exclude/include paths are outside the model",
+    "the exact relation heqb (Hash/HashAlike.v) is compared with the implementation's SHA-256 partition of the tag-safe alias-free part of the pool in all four mode combinations",
+    "cyclic containers, numpy / pandas are outside every model; date / Decimal / Path / object leaves and the exclusion options live in the extended model checked by C06 (corr_x)",
 ]
 ASSUMPTIONS = ["tree-shaped inputs", "no nan/inf/-0.0", "SHA-256 has no collisions on the strings DeepHash builds (H_inj)"]
 
@@ -38,10 +39,11 @@ ASSUMPTIONS = ["tree-shaped inputs", "no nan/inf/-0.0", "SHA-256 has no collisio
 # the independent canonical form (the spec of the mode's equivalence)
 # ---------------------------------------------------------------------------
 
-def canon_mode(v, o, seq=None):
+def canon_mode(v, o, seq=None, set_iter=False):
     """A string that is equal for two values iff they are equal under the
     mode's equivalence.  Written from the property text, not from deephash.py.
-    seq: override for how list/tuple items are compared (used by matchers)."""
+    seq: override for how list/tuple items are compared (used by matchers);
+    set_iter: sets rendered in their iteration order (the mechanism of K3, used by its matcher only)."""
     ir, io, ip = o[0], o[1], o[2]
 
     def go(x):
@@ -75,7 +77,8 @@ def canon_mode(v, o, seq=None):
                 items = out
             return tag + "[" + ",".join(items) + "]"
         if isinstance(x, (set, frozenset)):
-            return ("S" if isinstance(x, set) else "F") + "{" + ",".join(sorted(go(y) for y in x)) + "}"
+            ms = [go(y) for y in x]
+            return ("S" if isinstance(x, set) else "F") + "{" + ",".join(ms if set_iter else sorted(ms)) + "}"
         if isinstance(x, dict):
             its = []
             for k, y in x.items():
@@ -175,6 +178,8 @@ def _collapse(v, first=None):
 def _k1(case):
     """a str whose content equals the pre-hash serialisation of a non-string value at the same place of the other value
     (possibly after the memo-table aliasing of K2 inside a value)"""
+    if case.get("kind") != "collision":       # the finding is about two unequal values sharing a hash, nothing else
+        return False
     o = tuple(case["opts"])
     a, b = from_repr(case["value"]), from_repr(case["other"])
     present = {s for s in _strings_in(a, set()) | _strings_in(b, set()) if s == "NONE" or ":" in s}
@@ -189,6 +194,8 @@ def _k1(case):
 
 def _k4(case):
     """ordered mode + repetition: equal as first-occurrence-ordered count tables, different as sequences"""
+    if case.get("kind") != "collision":
+        return False
     o = tuple(case["opts"])
     if o[0] or o[1]:
         return False
@@ -210,6 +217,8 @@ def _k4(case):
 def _k2(case):
     """memo aliasing: == atoms of different type co-occur in one of the values, and the pair is equal once every
     number is read as the first == number visited before it in the same value"""
+    if case.get("kind") != "collision":
+        return False
     o = tuple(case["opts"])
     a, b = from_repr(case["value"]), from_repr(case["other"])
     if not (base.memo_alias(a) or base.memo_alias(b)):
@@ -628,7 +637,17 @@ def replay_witnesses(ctx):
     a, b = [1, 1.0], [1]
     if DeepHash(a)[a] != DeepHash(b)[b]:
         ctx.break_("correspondence", {"name": "C07_memo_refuted", "detail": "K2 witness [1,1.0] vs [1] no longer collides: the model (memo keyed by ==) is stale"})
-    ctx.note("refuted_witnesses_replayed", ["C07_str_vs_tagged_refuted(K1)", "C07_ordered_repetition_refuted(K4)", "C07_memo_refuted(K2)"])
+    # C07_extended_refuted: K1 on the leaf types of the extended model; apply_hash=False needs no hasher to collide
+    import collections, datetime, decimal, pathlib
+    for s, x in [("datetime:2020-01-02", datetime.date(2020, 1, 2)), ("Decimal:1.5", decimal.Decimal("1.5")),
+                 ("PosixPath:/a/b", pathlib.PosixPath("/a/b")), ("ntPt:{}", collections.namedtuple("Pt", [])())]:
+        if DeepHash(s)[s] != DeepHash(x)[x]:
+            ctx.break_("correspondence", {"name": "C07_extended_refuted", "detail": "K1 witness %r vs %r no longer collides: the extended model is stale" % (s, x)})
+    a, b = ["a,str:b"], ["a", "b"]
+    if DeepHash(a, apply_hash=False)[a] != DeepHash(b, apply_hash=False)[b]:
+        ctx.break_("correspondence", {"name": "C07_extended_refuted", "detail": "apply_hash=False witness ['a,str:b'] vs ['a','b'] no longer collides: the extended model is stale"})
+    ctx.note("refuted_witnesses_replayed", ["C07_str_vs_tagged_refuted(K1)", "C07_ordered_repetition_refuted(K4)", "C07_memo_refuted(K2)",
+                                            "C07_extended_refuted(K1 on date / Decimal / Path; apply_hash=False)"])
 
 
 def run(ctx):
